@@ -105,8 +105,8 @@ def start_mocking_observations(ctx, sym, mod):
             and outs[0][1][1] is stack[-1]}
 
 
-def r2_per_execution(ctx, mod, sym):
-    ctx.rule('R2', "_start_mocking / _stop_mocking executed abstractly (both print settings, with an older buffer "
+def r2_per_execution(ctx, mod, sym, rule='R2'):
+    ctx.rule(rule, "_start_mocking / _stop_mocking executed abstractly (both print settings, with an older buffer "
                    "already on the stack): start pushes exactly one new, empty buffer and patches sys.stdout with that "
                    "very object; stop pops it and hands its getvalue() and the same context to append_output")
     from .. import symexec
@@ -148,7 +148,7 @@ def r2_per_execution(ctx, mod, sym):
         stack = stack_of(me, 'stdout')
         ok = raised is None and len(stack) == 2 and stack[0] is older and len(created) == 1 and stack[1] is created[0] \
             and buffer_stores_verbatim(created[0]._name, created[0].attrs['ctor_args'], created[0].attrs['ctor_kwargs'])
-        ctx.check(ok, 'R2', '_start_mocking:fresh-buffer' + tag, mod, sm,
+        ctx.check(ok, rule, '_start_mocking:fresh-buffer' + tag, mod, sm,
                   "_start_mocking does not push exactly one new, empty buffer that keeps written text as it is (stack "
                   "afterwards: %r, buffers created: %d%s%s)" % (
                       stack, len(created), '' if raised is None else ', raises ' + raised.kind,
@@ -157,17 +157,17 @@ def r2_per_execution(ctx, mod, sym):
                   "an execution writes into a buffer that already holds another execution's text")
         if ok:
             want_kind = 'buffer:PrintingStringIO' if print_setting is True else 'buffer:StringIO'
-            ctx.check(created[0]._name == want_kind, 'R2', '_start_mocking:buffer-kind' + tag, mod, sm,
+            ctx.check(created[0]._name == want_kind, rule, '_start_mocking:buffer-kind' + tag, mod, sm,
                       "with builtins print=%r the buffer is a %s" % (print_setting, created[0]._name),
                       "output is echoed to the real console (or not) against the setting")
             outs = [e for e in rec.named('patch') if e[1] and e[1][0] == 'sys.stdout']
-            ctx.check(len(outs) == 1 and len(outs[0][1]) >= 2 and outs[0][1][1] is created[0], 'R2',
+            ctx.check(len(outs) == 1 and len(outs[0][1]) >= 2 and outs[0][1][1] is created[0], rule,
                       '_start_mocking:patches-that-buffer' + tag, mod, sm,
                       "sys.stdout is not patched with the buffer that was pushed for this execution",
                       "printed text lands in another execution's buffer")
             started = rec.named('_start_patches')
             ctx.check(len(started) == 1 and any(isinstance(a, Obj) and a.attrs.get('target') == 'sys.stdout'
-                                                for a in started[0][1]), 'R2', '_start_mocking:starts-patch' + tag,
+                                                for a in started[0][1]), rule, '_start_mocking:starts-patch' + tag,
                       mod, sm, "the sys.stdout patch is not handed to _start_patches exactly once",
                       "output is not captured at all")
             # now stop
@@ -176,11 +176,11 @@ def r2_per_execution(ctx, mod, sym):
             ap = rec.named('append_output')
             ok2 = raised is None and stack_of(me, 'stdout') == [older] and len(ap) == 1 and \
                 len(ap[0][1]) == 2 and ap[0][1][0] is created[0].attrs['text'] and ap[0][1][1] is context
-            ctx.check(ok2, 'R2', '_stop_mocking:records-popped-buffer' + tag, mod, st,
+            ctx.check(ok2, rule, '_stop_mocking:records-popped-buffer' + tag, mod, st,
                       "_stop_mocking does not pop this execution's buffer and append its text for the same context "
                       "(append_output calls: %d)" % len(ap),
                       "an execution's output is lost or attributed to another execution")
-            ctx.check(rec.order('_stop_patches', 'append_output')[:1] == ['_stop_patches'], 'R2',
+            ctx.check(rec.order('_stop_patches', 'append_output')[:1] == ['_stop_patches'], rule,
                       '_stop_mocking:stops-patches-first' + tag, mod, st,
                       "_stop_mocking does not stop the patches before recording the output",
                       "sys.stdout is still the capture buffer while pedal records")
